@@ -476,7 +476,7 @@ func mentionsInternal(x Expr, ghosts map[string]bool) bool {
 	case *EIs:
 		return mentionsInternal(x.X, ghosts)
 	case *EForall:
-		return mentionsInternal(x.Body, ghosts)
+		return mentionsInternal(x.Body, ghosts) || (x.In != nil && mentionsInternal(x.In, ghosts))
 	}
 	return false
 }
@@ -781,8 +781,11 @@ func (e *Exec) doAppend(st *State, instr ssa.Instruction, cc *ssa.CallCommon, ar
 	fits := app("bvule", newLen, s.T[3])
 	// in place when capacity suffices, otherwise a fresh array
 	nb := e.allocRef(st, "append")
-	base := tIte(fits, s.T[0], nb)
-	off := tIte(fits, s.T[1], bvLitI(0, 64))
+	// name the result components so that quantifier patterns stay simple
+	base := e.fresh("app.base", SInt)
+	off := e.fresh("app.off", SBV(64))
+	st.assume(tEq(base, tIte(fits, s.T[0], nb)))
+	st.assume(tEq(off, tIte(fits, s.T[1], bvLitI(0, 64))))
 	ncap := e.fresh("cap", SBV(64))
 	st.assume(app("bvuge", ncap, newLen))
 	st.assume(app("bvule", ncap, bvLitI(1<<41, 64)))
@@ -796,8 +799,6 @@ func (e *Exec) doAppend(st *State, instr ssa.Instruction, cc *ssa.CallCommon, ar
 		}
 	}
 	et := slT.Elem()
-	// old elements are preserved: (only matters when a new array was allocated)
-	// We record the abstract content instead of a quantified copy:
 	c := e.contentOf(st, s, et)
 	var c2 string
 	if isStringType(cc.Args[1].Type()) {
@@ -805,17 +806,47 @@ func (e *Exec) doAppend(st *State, instr ssa.Instruction, cc *ssa.CallCommon, ar
 	} else {
 		c2 = e.contentOf(st, t, et)
 	}
-	e.havocElems(st, nb, et) // contents of the (possibly) new array
-	// write the appended elements when the argument is a literal 1-element slice
 	if n, ok := singleElem(cc.Args[1]); ok {
+		// append(s, x): write x behind the old elements, which stay where they are
+		// (or are copied when a new array is allocated)
 		idx := app("bvadd", off, s.T[2])
 		ev := e.val(st, n)
-		e.storeTo(st, e.elemLoc(base, idx, et), ev)
-		// and keep the existing elements reachable when the array moved
 		e.copyPrefixAssumption(st, s, base, off, et)
+		e.storeTo(st, e.elemLoc(base, idx, et), ev)
+	} else if !isStringType(cc.Args[1].Type()) && !isByteLike(et) {
+		// append(s, t...): element-wise definition of the result row (memmove semantics:
+		// sources are read from the pre-state, so overlapping in-place moves are exact)
+		e.appendRows(st, s, t, base, off, et)
 	}
 	st.assume(tEq(e.contentOf(st, res, et), app(e.fun("cat", []string{SInt, SInt}, SInt), c, c2)))
 	return res
+}
+
+func isByteLike(t types.Type) bool {
+	b, ok := t.Underlying().(*types.Basic)
+	return ok && (b.Kind() == types.Uint8 || b.Kind() == types.Int8)
+}
+
+// appendRows defines the element arrays after append(s, t...).
+func (e *Exec) appendRows(st *State, s, t Val, base, off string, et types.Type) {
+	for _, l := range shape(et) {
+		k := leafKey(elemKey(et), l)
+		srt := arr(SInt, arr(SBV(64), l.Sort))
+		a := e.curArr(st, k, srt)
+		nrow := e.fresh("row:"+k, arr(SBV(64), l.Sort))
+		j := e.freshName("j")
+		start := app("bvadd", off, s.T[2])                 // first appended position
+		end := app("bvadd", start, t.T[2])                 // one past the last appended position
+		fromT := app("select", app("select", a, t.T[0]), app("bvadd", t.T[1], app("bvsub", j, start)))
+		fromS := app("select", app("select", a, s.T[0]), app("bvadd", s.T[1], app("bvsub", j, off)))
+		oldRow := app("select", app("select", a, base), j)
+		val := tIte(tAnd(app("bvule", start, j), app("bvult", j, end)), fromT,
+			tIte(tAnd(app("bvule", off, j), app("bvult", j, start)), fromS, oldRow))
+		st.assume(fmt.Sprintf("(forall ((%s (_ BitVec 64))) (! (= (select %s %s) %s) :pattern ((select %s %s))))", j, nrow, j, val, nrow, j))
+		st.wrote(k, base)
+		e.setArr(st, k, srt, app("store", a, base, nrow))
+	}
+	st.counts["elemgen:"+typeKey(et)]++
 }
 
 // singleElem recognises append(s, x) which go/ssa lowers to a 1-element array slice.
